@@ -177,6 +177,18 @@ def candidates(tier, rnd):
     t = TypeSpec("enum", [mk_variant("V0", "tuple", 1, ["RC"]), mk_variant("V1", "named", 2, ["R", "RC"]), Variant("V2", "unit", [])], shape="enum-RC-R|#[repr(u8)]")
     t.extra_attrs.append("#[repr(u8)]")
     out.append((t, "attr", "Clone"))
+    # explicit discriminants on variants that carry data (they are variants like any other for clone / clone_from)
+    t = TypeSpec("enum", [mk_variant("V0", "tuple", 2, ["R"]), mk_variant("V1", "named", 1, ["R"]), Variant("V2", "unit", []), mk_variant("V3", "tuple", 1, ["R", "u8"])], shape="enum-R|#[repr(u8)]+discriminants")
+    t.extra_attrs.append("#[repr(u8)]")
+    for v, dsc in zip(t.variants, (2, 7, 1, 9)):
+        v.disc = dsc
+    out.append((t, "attr", "Clone"))
+    # Clone next to Default with explicit default values on fields: the values are Default's business only
+    t = TypeSpec("struct", [Variant(None, "named", [F("f0", "u8"), F("f1", "R"), F("f2", "u8")])], shape="struct-named3-default-values")
+    t.variants[0].fields[0].extra_attrs.append("#[default(7)]")
+    t.variants[0].fields[2].extra_attrs.append("#[default(9)]")
+    out.append((t, "attr", "Clone, Default"))
+    out.append((t, "derive", "Default, Clone"))
     # generic wrappers, bound arguments (must not change behaviour)
     for la in ("Clone", "Clone(bound(A: Clone))", "Clone, bound(A)", "Clone(bound(..))"):
         t = TypeSpec("struct", [Variant(None, "named", [F("a", "A"), F("b", "R"), F("p", "core::marker::PhantomData<A>")])], [("A", "R")], shape="struct-generic")
